@@ -140,6 +140,16 @@ class VerifyService:
                     permissions=b'',
                 )
             psid: int = header_info.get("psid", 0)
+            # IEEE 1609.2 §5.2.3.2.2: the PSID of the message shall be among the
+            # application permissions of the signing certificate.
+            if not authorization_ticket.permits_its_aid(psid):
+                return SNVERIFYConfirm(
+                    report=ReportVerify.INVALID_CERTIFICATE,
+                    certificate_id=authorization_ticket.as_hashedid8(),
+                    its_aid=b'',
+                    its_aid_length=0,
+                    permissions=b'',
+                )
             # §7.1.2: DENM-specific headerInfo constraints
             if psid == 37:
                 # generationLocation SHALL be present
